@@ -5,7 +5,8 @@ open Desper
 /-- callbacks that do nothing (the listeners of C03's "calls nothing else", C20's listeners) -/
 def Passive (U : Universe) : Prop := ∀ o m k, U.reaction o m k = []
 
-def cbEntry (args : String) (p : Obj × String) : Entry := .cb (some p.1) p.2 args
+/-- the log entry of a delivery: receiver, the function its class resolves the mapped method name to, arguments -/
+def cbEntry (U : Universe) (args : String) (p : Obj × String) : Entry := .cb (some p.1) (U.impl p.1 p.2) args
 
 /-- states that differ only in log, hints and call counters -/
 structure SameCore (s s' : St) : Prop where
@@ -33,7 +34,7 @@ theorem deliver_passive {U : Universe} (hp : Passive U) (fuel : Nat) (s : St)
     (rem : List (Obj × String)) (args : String) (hdy : s.dying = [])
     (hok : (deliver U fuel s rem args).2 = .ok) :
     ∃ called : List (Obj × String),
-      (deliver U fuel s rem args).1.log = (called.map (cbEntry args)).reverse ++ s.log ∧
+      (deliver U fuel s rem args).1.log = (called.map (cbEntry U args)).reverse ++ s.log ∧
       called.Nodup ∧ (∀ p, p ∈ called ↔ p ∈ rem ∧ s.alive p.1 = true) ∧
       SameCore s (deliver U fuel s rem args).1 := by
   induction fuel generalizing s rem with
@@ -72,11 +73,11 @@ theorem deliver_passive {U : Universe} (hp : Passive U) (fuel : Nat) (s : St)
                 unpin st r = { st with pinned := s.pinned } := by
               intro st h1 h2
               simp [unpin, h1, h2]
-            have hun' := hun { s with hints := hs, calls := Dict.set s.calls (r, m) ((Dict.get? s.calls (r, m)).getD 0 + 1), pinned := r :: s.pinned, log := Entry.cb (some r) m args :: s.log } rfl hdy
+            have hun' := hun { s with hints := hs, calls := Dict.set s.calls (r, m) ((Dict.get? s.calls (r, m)).getD 0 + 1), pinned := r :: s.pinned, log := Entry.cb (some r) (U.impl r m) args :: s.log } rfl hdy
             rw [hun'] at hok ⊢
             obtain ⟨called, hlog, hnd, hmemc, hsame⟩ := ih
               { s with hints := hs, calls := Dict.set s.calls (r, m) ((Dict.get? s.calls (r, m)).getD 0 + 1),
-                       pinned := s.pinned, log := Entry.cb (some r) m args :: s.log }
+                       pinned := s.pinned, log := Entry.cb (some r) (U.impl r m) args :: s.log }
               (rem.filter (· ≠ (r, m))) hdy hok
             refine ⟨(r, m) :: called, ?_, ?_, ?_, ?_⟩
             · rw [hlog]; simp [cbEntry]
@@ -86,7 +87,7 @@ theorem deliver_passive {U : Universe} (hp : Passive U) (fuel : Nat) (s : St)
               simp at this
             · intro p
               simp only [List.mem_cons, hmemc, List.mem_filter]
-              have hal' : ∀ x, St.alive { s with hints := hs, calls := Dict.set s.calls (r, m) ((Dict.get? s.calls (r, m)).getD 0 + 1), pinned := s.pinned, log := Entry.cb (some r) m args :: s.log } x = s.alive x := by
+              have hal' : ∀ x, St.alive { s with hints := hs, calls := Dict.set s.calls (r, m) ((Dict.get? s.calls (r, m)).getD 0 + 1), pinned := s.pinned, log := Entry.cb (some r) (U.impl r m) args :: s.log } x = s.alive x := by
                 intro x; simp [St.alive]
               rw [hal']
               constructor
@@ -123,7 +124,7 @@ def DeliveredOnce (s : St) (ev : String) (called : List (Obj × String)) : Prop 
 theorem dispatch_passive {U : Universe} (hp : Passive U) (fuel : Nat) (s : St) (ev args : String)
     (hdy : s.dying = []) (hen : s.enabled = true)
     (hok : (execOp U fuel s (.dispatch ev args)).2 = .ok) :
-    ∃ called, (execOp U fuel s (.dispatch ev args)).1.log = (called.map (cbEntry args)).reverse ++ s.log ∧
+    ∃ called, (execOp U fuel s (.dispatch ev args)).1.log = (called.map (cbEntry U args)).reverse ++ s.log ∧
       DeliveredOnce s ev called ∧ SameCore s (execOp U fuel s (.dispatch ev args)).1 := by
   cases fuel with
   | zero => simp [execOp] at hok
@@ -145,7 +146,7 @@ theorem release_passive {U : Universe} (hp : Passive U) (fuel : Nat) (s : St)
     ∃ lists : List (List (Obj × String)),
       Forall2 (fun e c => DeliveredOnce s e.1 c) s.queue lists ∧
       (release U fuel s).1.log =
-        ((List.zipWith (fun e c => c.map (cbEntry e.2)) s.queue lists).flatten).reverse ++ s.log ∧
+        ((List.zipWith (fun e c => c.map (cbEntry U e.2)) s.queue lists).flatten).reverse ++ s.log ∧
       (release U fuel s).1.queue = [] ∧
       (release U fuel s).1.released = s.released ++ s.queue := by
   induction fuel generalizing s with
